@@ -34,63 +34,72 @@ Definition mismatches (cs : list case) : list N :=
   map id (filter (fun c => negb (agree (c_peers c) [] (c_evs c))) cs).
 
 (* --- the property on the implementation's own answers -------------------------------------- *)
-Definition classify (hist : list event) (p : pid) (t : Z) (said_blocked : bool) : option string :=
-  let expected := covered hist p t in
-  if Bool.eqb said_blocked expected then None
-  else if expected then
-    (if existsb (blocks_permanently p) hist then Some "lapsed-permanent" else Some "lapsed-early")%string
-  else
-    (if existsb (blocks p) hist then Some "not-lifted" else Some "unblocked-affected")%string.
-
-Definition first_some (a b : option string) : option string :=
-  match a with Some _ => a | None => b end.
-
-(* a listing code against the blocks placed so far; the instant t = t0 + d itself is left open *)
+(* the instant t = t0 + d itself is left open ("at least its full duration"): a peer must be
+   blocked when some block strictly covers t and may be blocked only when some block covers t *)
 Definition strictly_covered (hist : list event) (p : pid) (t : Z) : bool :=
   existsb (fun e => match e with
                     | Block q d t0 => (q =? p)%N && ((d =? 0) || (t <? t0 + d))
                     | _ => false end) hist.
-Definition check_listed (hist : list event) (t : Z) (p : pid) (code : Z) : option string :=
+
+(* [ordered = false]: the time stamps of the case are not monotone; only the clauses that need no
+   ordering are judged (a permanent block never lapses, a never-blocked peer is unaffected) *)
+Definition classify_gen (ordered : bool) (hist : list event) (p : pid) (t : Z) (said_blocked : bool)
+  : option string :=
   let perm := existsb (blocks_permanently p) hist in
-  if (code =? 2) && negb perm then classify hist p t true
+  let any := existsb (blocks p) hist in
+  if said_blocked then
+    (if negb any then Some "unblocked-affected"
+     else if ordered && negb (covered hist p t) then Some "not-lifted" else None)%string
+  else
+    (if perm then Some "lapsed-permanent"
+     else if ordered && strictly_covered hist p t then Some "lapsed-early" else None)%string.
+Definition classify := classify_gen true.
+
+Definition first_some (a b : option string) : option string :=
+  match a with Some _ => a | None => b end.
+
+(* a listing code against the blocks placed so far *)
+Definition check_listed (ordered : bool) (hist : list event) (t : Z) (p : pid) (code : Z) : option string :=
+  let perm := existsb (blocks_permanently p) hist in
+  if (code =? 2) && negb perm then classify_gen ordered hist p t true
   else if negb (code =? 2) && perm then Some "lapsed-permanent"%string
-  else if negb (code =? 0) then classify hist p t true
-  else if strictly_covered hist p t then Some "lapsed-early"%string
+  else if negb (code =? 0) then classify_gen ordered hist p t true
+  else if ordered && strictly_covered hist p t then Some "lapsed-early"%string
   else None.
-Fixpoint check_listing (hist : list event) (t : Z) (ps : list pid) (codes : list Z) : option string :=
+Fixpoint check_listing (ordered : bool) (hist : list event) (t : Z) (ps : list pid) (codes : list Z) : option string :=
   match ps, codes with
-  | p :: pr, c :: cr => first_some (check_listed hist t p c) (check_listing hist t pr cr)
+  | p :: pr, c :: cr => first_some (check_listed ordered hist t p c) (check_listing ordered hist t pr cr)
   | [], [] => None
   | _, _ => Some "gater"%string   (* malformed observation *)
   end.
 
 (* the gater's answer for a Dial/Secured event: against the isBlocked probe that follows it at
    the same time when there is one (clause "gater"), otherwise against the specification *)
-Definition check_gated (hist : list event) (p : pid) (t : Z) (a : Z) (next : list ostep) : option string :=
+Definition check_gated (ordered : bool) (hist : list event) (p : pid) (t : Z) (a : Z) (next : list ostep) : option string :=
   match next with
   | (Query q t', [b], _) :: _ =>
       if (q =? p)%N && (t' =? t) then (if a =? 1 - b then None else Some "gater"%string)
-      else classify hist p t (a =? 0)
-  | _ => classify hist p t (a =? 0)
+      else classify_gen ordered hist p t (a =? 0)
+  | _ => classify_gen ordered hist p t (a =? 0)
   end.
 
-Fixpoint check_from (hist : list event) (prev_raw : list Z) (l : list ostep) : option string :=
+Fixpoint check_from (ordered : bool) (hist : list event) (prev_raw : list Z) (l : list ostep) : option string :=
   match l with
   | [] => None
   | (e, a, r) :: rest =>
       let here :=
         match e, a with
         | Block _ _ _, [] => None
-        | Query p t, [b] => classify hist p t (b =? 1)
-        | Dial p t, [x] => check_gated hist p t x rest
-        | Secured p t, [x] => check_gated hist p t x rest
+        | Query p t, [b] => classify_gen ordered hist p t (b =? 1)
+        | Dial p t, [x] => check_gated ordered hist p t x rest
+        | Secured p t, [x] => check_gated ordered hist p t x rest
         | AddrDial _ _, [x] | Upgraded _ _, [x] =>
             if (x =? 1) && zlist_eqb r prev_raw then None else Some "gater"%string
         | Accept _ _, [_] => if zlist_eqb r prev_raw then None else Some "gater"%string
-        | Listing ps t, codes => check_listing hist t ps codes
+        | Listing ps t, codes => check_listing ordered hist t ps codes
         | _, _ => Some "gater"%string   (* malformed observation *)
         end in
-      first_some here (check_from (hist ++ [e]) r rest)
+      first_some here (check_from ordered (hist ++ [e]) r rest)
   end.
 
 Fixpoint nondecreasing (t : Z) (l : list ostep) : bool :=
@@ -103,9 +112,8 @@ Definition violation (c : case) : option string :=
   match c_evs c with
   | [] => None
   | (e0, _, _) :: _ =>
-      if nondecreasing (time_of e0) (c_evs c)
-      then check_from [] (map (fun _ => -1) (c_peers c)) (c_evs c)
-      else None
+      (* without monotone time stamps the clauses that need no ordering are still judged *)
+      check_from (nondecreasing (time_of e0) (c_evs c)) [] (map (fun _ => -1) (c_peers c)) (c_evs c)
   end.
 
 Definition violations (cs : list case) : list (N * string) :=
